@@ -123,6 +123,34 @@ def hasProx (E : Env α) : Fn α → Bool
     | .nonlin _ => false
     | _ => true
 
+/-! ### flags of the loss classes of `scico.loss` -/
+
+/-- the concrete loss classes -/
+inductive LossCls where
+  | generic        -- `Loss(y, A, f)` (flags: `hasEval`/`hasProx` of `Fn.loss` / `Fn.lossNone`)
+  | sqL2           -- `SquaredL2Loss`
+  | sqL2Abs        -- `SquaredL2AbsLoss`
+  | sqL2SqAbs      -- `SquaredL2SquaredAbsLoss`
+  | poisson        -- `PoissonLoss`
+  deriving DecidableEq, Repr
+
+/-- class of the forward operator as the constructors test it (`isinstance`): `Identity ⊂ ScaledIdentity ⊂ Diagonal ⊂
+    LinearOperator ⊂ Operator` -/
+inductive OpCls where
+  | identity | scaledIdentity | diagonal | linear | nonlinear
+  deriving DecidableEq, Repr
+
+/-- `(has_eval, has_prox)` of the derived loss classes (`f = None`): every class overrides `__call__`;
+    `SquaredL2Loss`: `isinstance(A, LinearOperator)`; the two absolute-value losses:
+    `isinstance(A, Identity) and all(y >= 0)`; `PoissonLoss` has no prox -/
+def lossClsFlags (c : LossCls) (A : OpCls) (yNonneg : Bool) : Bool × Bool :=
+  match c with
+  | .generic => (false, false)          -- `Loss(y, A)` with `f = None` (`Fn.lossNone`)
+  | .sqL2 => (true, A != .nonlinear)
+  | .sqL2Abs => (true, A == .identity && yNonneg)
+  | .sqL2SqAbs => (true, A == .identity && yNonneg)
+  | .poisson => (true, false)
+
 /-! ### `c * f`, `f * c`, `f / c` -/
 
 /-- `Functional.__mul__` / `__rmul__` with the overrides of `ScaledFunctional` and `Loss` -/
